@@ -92,6 +92,11 @@ def run(repo, rep, tier):
               "records its token (handle_errors=True): a failure inside the "
               "interpolation machinery itself is located",
               construct="interpolation-handles-errors", where=L.where(vi))
+    # a template pulled in through load: / use-macro is re-read when it
+    # changed, like the one that pulled it in: it inherits the options
+    # (C16 owns the loader)
+    from . import c16 as _c16
+    L.borrow(repo, rep, "R12.2", "C16", _c16._loader, ("config-undivided",))
     L.state_rule(repo, rep)
 
 
